@@ -10,6 +10,7 @@ package main
 import (
 	"flag"
 	"fmt"
+	"runtime"
 	"sync"
 	"sync/atomic"
 
@@ -19,9 +20,24 @@ import (
 )
 
 type gopT struct {
-	K string `json:"k"` // newgroup creategroup createpool replacepool update set submit finish
+	K string `json:"k"` // newgroup creategroup createpool replacepool update set submit finish shutdownpool
 	I int    `json:"i"` // target node (creation index)
 	V int    `json:"v,omitempty"`
+	O []optT `json:"opts,omitempty"` // createpool: the caller's options, in order (see main.go optT)
+	T bool   `json:"task_pool,omitempty"`
+}
+
+// what a Shutdown of a group-created pool with a backlog did (op shutdownpool): judged in Go by conservation with the
+// cancel flag the CALLER asked for, and in Coq against the option resolution + the pool model
+type gshutT struct {
+	Node      int    `json:"node"`
+	Opts      []optT `json:"opts"`
+	Gated     int    `json:"gated_at_shutdown"`
+	RanBefore int    `json:"ran_before"`
+	Accepted  []int  `json:"accepted"`
+	Ran       []int  `json:"ran"`
+	Cancelled []int  `json:"cancelled"`
+	Pending   int    `json:"pending"`
 }
 
 type gnode struct {
@@ -32,6 +48,10 @@ type gnode struct {
 	name     string
 	gates    []chan struct{} // gated tasks of the pool that have not been released (FIFO)
 	replaced bool
+	opts     []optT
+	nsub     int // tasks submitted (ids 0..nsub-1)
+	mu       sync.Mutex
+	ran      []int
 }
 
 type gobsT struct {
@@ -112,7 +132,7 @@ func (r *grunner) observe() (gobsT, bool) {
 	return o, ok
 }
 
-func runGroupHist(ops []gopT) (obs []gobsT, problems []string) {
+func runGroupHist(ops []gopT) (obs []gobsT, shuts []gshutT, problems []string) {
 	r := &grunner{wc: map[int]*probe{}, wp: map[int]*probe{}}
 	problem := func(f string, a ...any) { problems = append(problems, fmt.Sprintf(f, a...)) }
 	for k, o := range ops {
@@ -127,8 +147,8 @@ func runGroupHist(ops []gopT) (obs []gobsT, problems []string) {
 			r.nodes = append(r.nodes, &gnode{parent: o.I, group: r.nodes[o.I].group.CreateGroup(name), name: name})
 		case "createpool":
 			name := fmt.Sprintf("p%d", len(r.nodes))
-			p := r.nodes[o.I].group.CreatePool(name, workerpool.WithWorkerCount(1+o.V%2))
-			r.nodes = append(r.nodes, &gnode{isPool: true, parent: o.I, pool: p, name: name})
+			p := r.nodes[o.I].group.CreatePool(name, goOpts(o.O)...)
+			r.nodes = append(r.nodes, &gnode{isPool: true, parent: o.I, pool: p, name: name, opts: o.O})
 		case "replacepool":
 			// o.I: an existing pool of a group; it is shut down and a new pool is created under the same name. The old
 			// pool stays subscribed (the model keeps it in the forest); the new one is a new node.
@@ -145,11 +165,63 @@ func runGroupHist(ops []gopT) (obs []gobsT, problems []string) {
 			n := r.nodes[o.I]
 			ch := make(chan struct{})
 			n.gates = append(n.gates, ch)
-			n.pool.Submit(func() { <-ch })
+			id := n.nsub
+			n.nsub++
+			n.pool.Submit(func() {
+				<-ch
+				n.mu.Lock()
+				n.ran = append(n.ran, id)
+				n.mu.Unlock()
+			})
 		case "finish":
 			n := r.nodes[o.I]
 			close(n.gates[0])
 			n.gates = n.gates[1:]
+		case "shutdownpool":
+			// a pool made by CreatePool whose counter was only moved by real tasks: Shutdown while gated tasks are executing
+			// (at most one per worker) and the rest of the accepted tasks is queued, then the gates open
+			n := r.nodes[o.I]
+			_, effCancel, _ := resolve("group", n.opts)
+			sh := gshutT{Node: o.I, Opts: n.opts, Gated: len(n.gates)}
+			n.mu.Lock()
+			sh.RanBefore = len(n.ran)
+			n.mu.Unlock()
+			if !within(freeBound, func() { n.pool.Shutdown() }) {
+				problem("op %d: Shutdown of pool %d did not return within %v", k, o.I, freeBound)
+			}
+			for _, ch := range n.gates {
+				close(ch)
+			}
+			n.gates = nil
+			n.replaced = true
+			if !within(freeBound, n.pool.ShutdownComplete.Wait) {
+				problem("op %d: pool %d: ShutdownComplete.Wait did not return within %v after Shutdown", k, o.I, freeBound)
+			}
+			settle(settleTimeout)
+			n.mu.Lock()
+			sh.Ran = sorted(n.ran)
+			n.mu.Unlock()
+			seen := map[int]int{}
+			for _, id := range sh.Ran {
+				seen[id]++
+			}
+			for id := 0; id < n.nsub; id++ {
+				sh.Accepted = append(sh.Accepted, id)
+				switch {
+				case seen[id] > 1:
+					problem("op %d: pool %d: task %d ran %d times", k, o.I, id, seen[id])
+				case seen[id] == 0:
+					sh.Cancelled = append(sh.Cancelled, id)
+					if !effCancel {
+						problem("op %d: pool %d made by CreatePool with options %v (cancel-on-shutdown disabled by the caller): accepted task %d was never run", k, o.I, n.opts, id)
+					}
+				}
+			}
+			sh.Pending = n.pool.PendingTasksCounter.Get()
+			if sh.Pending != 0 {
+				problem("op %d: pool %d: PendingTasksCounter = %d after its shutdown completed", k, o.I, sh.Pending)
+			}
+			shuts = append(shuts, sh)
 		default:
 			vx.Die("bad group op %q", o.K)
 		}
@@ -224,7 +296,7 @@ func runGroupHist(ops []gopT) (obs []gobsT, problems []string) {
 			problem("group %d: a WaitChildren/WaitParents call never returned although everything is idle", i)
 		}
 	}
-	return obs, problems
+	return obs, shuts, problems
 }
 
 func gopCoq(o gopT) string {
@@ -245,6 +317,8 @@ func gopCoq(o gopT) string {
 		return fmt.Sprintf("GUpdate %d 1%%Z", o.I)
 	case "finish":
 		return fmt.Sprintf("GUpdate %d (-1)%%Z", o.I)
+	case "shutdownpool": // every accepted task of the pool finishes (run or cancelled): its counter returns to zero
+		return fmt.Sprintf("GSet %d 0%%Z", o.I)
 	}
 	panic("gopCoq " + o.K)
 }
@@ -270,6 +344,7 @@ type gshape struct {
 	parent   []int
 	gated    []int
 	replaced []bool
+	taskPool []bool // counter moved by real tasks only (submit / finish / shutdownpool)
 }
 
 func (s *gshape) add(pool bool, parent int) {
@@ -277,6 +352,21 @@ func (s *gshape) add(pool bool, parent int) {
 	s.parent = append(s.parent, parent)
 	s.gated = append(s.gated, 0)
 	s.replaced = append(s.replaced, false)
+	s.taskPool = append(s.taskPool, false)
+}
+
+// the caller's options of a CreatePool: each option of the package left out / set to each value / repeated with the
+// last occurrence deciding; worker counts 1..3 and, rarely, the default (option left out) or above it
+func randomPoolOpts(rng *vx.Rng) []optT {
+	w := 1 + rng.Intn(3)
+	switch rng.Intn(16) {
+	case 0:
+		w = 2 * runtime.NumCPU() // may be left out by representOpts
+	case 1:
+		w = 2*runtime.NumCPU() + 1
+	}
+	cancel := rng.Chance(1, 2)
+	return representOpts(rng, "group", w, cancel, rng.Chance(1, 3))
 }
 
 func (s *gshape) pick(rng *vx.Rng, pool bool) int {
@@ -302,6 +392,10 @@ func (s *gshape) apply(o gopT) {
 		s.add(false, o.I)
 	case "createpool":
 		s.add(true, o.I)
+		s.taskPool[len(s.taskPool)-1] = o.T
+	case "shutdownpool":
+		s.replaced[o.I] = true
+		s.gated[o.I] = 0
 	case "replacepool":
 		s.replaced[o.I] = true
 		s.add(true, s.parent[o.I])
@@ -313,6 +407,42 @@ func (s *gshape) apply(o gopT) {
 }
 
 func directedGroup() [][]gopT {
+	hs := directedGroupRaw()
+	for _, h := range hs {
+		for i := range h {
+			if h[i].K == "createpool" && h[i].O == nil {
+				h[i].O = []optT{{K: "workers", N: 1 + h[i].V%2}}
+			}
+		}
+	}
+	return hs
+}
+
+// Shutdown of a group-created pool with a backlog, for each way the caller can state cancel-on-shutdown (round 2)
+func directedShutdownPool() [][]gopT {
+	var out [][]gopT
+	for _, o := range [][]optT{
+		{{K: "workers", N: 1}, {K: "cancel", B: false}},
+		{{K: "cancel", B: false}, {K: "workers", N: 2}},
+		{{K: "workers", N: 1}, {K: "cancel", B: true}},
+		{{K: "workers", N: 2}},
+		{{K: "cancel", B: true}, {K: "workers", N: 1}, {K: "cancel", B: false}, {K: "panic", B: true}},
+		{{K: "cancel", B: false}, {K: "workers", N: 3}, {K: "cancel", B: true}},
+		{{K: "cancel", B: false}}, // default worker count
+		{{K: "workers", N: 2*runtime.NumCPU() + 1}, {K: "cancel", B: false}},
+	} {
+		h := []gopT{{K: "newgroup"}, {K: "creategroup", I: 0}, {K: "createpool", I: 1, O: o, T: true}, {K: "createpool", I: 0, O: []optT{{K: "workers", N: 1}}}}
+		w, _, _ := resolve("group", o)
+		for i := 0; i < w+3; i++ {
+			h = append(h, gopT{K: "submit", I: 2})
+		}
+		h = append(h, gopT{K: "submit", I: 3}, gopT{K: "finish", I: 2}, gopT{K: "shutdownpool", I: 2}, gopT{K: "finish", I: 3})
+		out = append(out, h)
+	}
+	return out
+}
+
+func directedGroupRaw() [][]gopT {
 	return [][]gopT{
 		// nested groups: a pool two levels down drives both counters; a sibling keeps the parent non-zero
 		{{K: "newgroup"}, {K: "creategroup", I: 0}, {K: "createpool", I: 1}, {K: "createpool", I: 0}, {K: "submit", I: 2}, {K: "submit", I: 2},
@@ -346,7 +476,7 @@ func randomGroupHist(rng *vx.Rng) []gopT {
 		case x < 16 && len(s.isPool) < maxNodes:
 			emit(gopT{K: "creategroup", I: s.pick(rng, false)})
 		case x < 32 && len(s.isPool) < maxNodes:
-			emit(gopT{K: "createpool", I: s.pick(rng, false), V: rng.Intn(2)})
+			emit(gopT{K: "createpool", I: s.pick(rng, false), O: randomPoolOpts(rng), T: rng.Chance(1, 2)})
 		case x < 35 && len(s.isPool) < maxNodes:
 			if p := s.pick(rng, true); p >= 0 && s.parent[p] >= 0 && !s.replaced[p] && s.gated[p] == 0 {
 				emit(gopT{K: "replacepool", I: p})
@@ -354,7 +484,22 @@ func randomGroupHist(rng *vx.Rng) []gopT {
 		default:
 			p := s.pick(rng, true)
 			if p < 0 {
-				emit(gopT{K: "createpool", I: s.pick(rng, false), V: rng.Intn(2)})
+				emit(gopT{K: "createpool", I: s.pick(rng, false), O: randomPoolOpts(rng), T: rng.Chance(1, 2)})
+				continue
+			}
+			if s.taskPool[p] && !s.replaced[p] { // (after its shutdown a task pool is only a counter, like a replaced pool)
+				switch y := rng.Intn(10); {
+				case y < 6:
+					emit(gopT{K: "submit", I: p})
+				case y < 8:
+					if s.gated[p] > 0 {
+						emit(gopT{K: "finish", I: p})
+					}
+				default:
+					if s.gated[p] > 0 {
+						emit(gopT{K: "shutdownpool", I: p})
+					}
+				}
 				continue
 			}
 			switch y := rng.Intn(10); {
@@ -403,7 +548,7 @@ func runGroupFree(fc *gfreeCase) (vals []int, returned bool, problems []string) 
 	var owner []*workerpool.Group
 	for p := 0; p < fc.Pools; p++ {
 		g := vx.Pick(rng, groups)
-		pools = append(pools, g.CreatePool(fmt.Sprintf("p%d", p), workerpool.WithWorkerCount(1+rng.Intn(3))))
+		pools = append(pools, g.CreatePool(fmt.Sprintf("p%d", p), goOpts(randomPoolOpts(rng.Fork()))...))
 		owner = append(owner, g)
 	}
 	var ran, submitted atomic.Int64
@@ -487,11 +632,12 @@ func groupMain(args []string) {
 	rng := vx.NewRng(*seed ^ 0x6a09e667)
 	st := vx.NewStats("a group history is non-trivial if it has a nested group or >= 2 pools and some counter leaves and re-enters zero; a free run always; distinct = distinct histories / (config, seed)")
 	cf := &vx.CasesFile{
-		Header: "From Coq Require Import List ZArith Bool.\nFrom Verif.C16_Pool Require Import Model Group GroupCorr.\nImport ListNotations.\n",
+		Header: "From Coq Require Import List ZArith Bool.\nFrom Verif.C16_Pool Require Import Model Options Group GroupCorr.\nImport ListNotations.\n",
 		Type:   "gcase",
 		Footer: "Definition M := Eval vm_compute in mismatches cases.\nPrint M.",
 	}
-	hists := directedGroup()
+	hists := append(directedGroup(), directedShutdownPool()...)
+	nDirected := len(hists)
 	hr := rng.Fork()
 	for i := 0; i < *nHist; i++ {
 		hists = append(hists, randomGroupHist(hr))
@@ -502,7 +648,7 @@ func groupMain(args []string) {
 			st.Count("ghist:skipped-after-5-failures")
 			continue
 		}
-		obs, problems := runGroupHist(ops)
+		obs, shuts, problems := runGroupHist(ops)
 		sh := &gshape{}
 		parents := map[int]int{}
 		nested, reenter := false, false
@@ -515,6 +661,9 @@ func groupMain(args []string) {
 			}
 			sh.apply(o)
 			st.Count("gop:" + o.K)
+			if o.K == "createpool" {
+				countOpts(st, "gpool", "group", o.O)
+			}
 		}
 		npools := 0
 		for _, p := range sh.isPool {
@@ -533,11 +682,24 @@ func groupMain(args []string) {
 		cf.Add(histCoq(ops, parents, obs))
 		st.CaseIndex = append(st.CaseIndex, map[string]any{"kind": "group-history", "ops": ops})
 		st.Case(fmt.Sprintf("%v", ops), (nested || npools >= 2) && reenter)
+		for _, x := range shuts {
+			// its own case: option resolution (Options.v) + pool model on the equivalent script, and conservation
+			cf.Add(fmt.Sprintf("GPoolShutdown %d %s %d %d %s %s %s (%d)%%Z", runtime.NumCPU(), optsCoq(x.Opts), x.Gated, x.RanBefore,
+				natList(x.Accepted), natList(x.Ran), natList(x.Cancelled), x.Pending))
+			st.CaseIndex = append(st.CaseIndex, map[string]any{"kind": "group-pool-shutdown", "ops": ops, "shutdown": x})
+			_, c, _ := resolve("group", x.Opts)
+			w, _, _ := resolve("group", x.Opts)
+			st.Case(fmt.Sprintf("shut %v %v", ops, x.Node), x.Gated > w)
+			st.Count(fmt.Sprintf("gshut:effective-cancel=%v", c))
+			if x.Gated > w {
+				st.Count(fmt.Sprintf("gshut:with-backlog:effective-cancel=%v", c))
+			}
+		}
 		st.Count(fmt.Sprintf("ghist:nodes=%d", len(sh.isPool)))
 		if nested {
 			st.Count("ghist:nested")
 		}
-		if hi < len(directedGroup()) {
+		if hi < nDirected {
 			st.Count("ghist:directed")
 		}
 		if len(problems) > 0 {
